@@ -18,6 +18,15 @@ assert str(REPO).startswith("/work/repo-"), "refusing to mutate anything but a s
 
 V17 = "src/spox/opset/ai/onnx/v17.py"
 MUT = {
+    "C11-tensor": {
+        "site1-from_array-memory-order-alone": [("src/spox/_utils.py", "        vals=(\n            np.char.encode(arr, encoding=\"utf-8\") if cast_to_bytes else arr\n        ).flatten(),\n", "        vals=np.ravel(\n            np.char.encode(arr, encoding=\"utf-8\") if cast_to_bytes else arr, order=\"K\"\n        ),\n")],
+        "site2-attrtensor-keeps-layout-alone": [("src/spox/_attributes.py", "        super().__init__(value.copy(), name)\n", "        super().__init__(np.array(value), name)\n"), ("src/spox/_attributes.py", "                v.copy() if isinstance(v, (np.ndarray, np.generic)) else v\n", "                np.array(v) if isinstance(v, (np.ndarray, np.generic)) else v\n")],
+        "both-sites-memory-order": [("src/spox/_utils.py", "        vals=(\n            np.char.encode(arr, encoding=\"utf-8\") if cast_to_bytes else arr\n        ).flatten(),\n", "        vals=np.ravel(\n            np.char.encode(arr, encoding=\"utf-8\") if cast_to_bytes else arr, order=\"K\"\n        ),\n"), ("src/spox/_attributes.py", "        super().__init__(value.copy(), name)\n", "        super().__init__(np.array(value), name)\n"), ("src/spox/_attributes.py", "                v.copy() if isinstance(v, (np.ndarray, np.generic)) else v\n", "                np.array(v) if isinstance(v, (np.ndarray, np.generic)) else v\n")],
+        "empty-list-attribute-dropped": [("src/spox/_attributes.py", "        return cls(tuple(value), name) if value is not None else None\n", "        return cls(tuple(value), name) if value else None\n")],
+    },
+    "C18-tensor": {
+        "both-sites-memory-order": [("src/spox/_utils.py", "        vals=(\n            np.char.encode(arr, encoding=\"utf-8\") if cast_to_bytes else arr\n        ).flatten(),\n", "        vals=np.ravel(\n            np.char.encode(arr, encoding=\"utf-8\") if cast_to_bytes else arr, order=\"K\"\n        ),\n"), ("src/spox/_attributes.py", "        super().__init__(value.copy(), name)\n", "        super().__init__(np.array(value), name)\n"), ("src/spox/_attributes.py", "                v.copy() if isinstance(v, (np.ndarray, np.generic)) else v\n", "                np.array(v) if isinstance(v, (np.ndarray, np.generic)) else v\n")],
+    },
     "C11-repeat": {
         "trim-end-located-by-name-lookup": [("src/spox/_node.py", "        while len(input_names) > self.min_input and not input_names[-1]:\n            input_names.pop()\n", "        _used = [n for n in input_names if n]\n        _end = input_names.index(_used[-1]) + 1 if _used else 0\n        input_names = input_names[: max(_end, min(self.min_input, len(input_names)))]\n")],
         "inputs-deduplicated-by-var": [("src/spox/_node.py", "        input_names = [scope.var[var] if var is not None else \"\" for var in self.inputs]\n", "        _names = {}\n        for var in self.inputs:\n            _names.setdefault(id(var) if var is not None else object(), scope.var[var] if var is not None else '')\n        input_names = list(_names.values())\n")],
